@@ -1019,11 +1019,23 @@ func (j *jdec) value(d *Doc, t types.Type, addr *Value) {
 	case DArr:
 		switch u := under(t).(type) {
 		case *types.Slice:
-			out := make(Slice, len(d.Elems))
-			for i := range out {
-				out[i] = zero(u.Elem())
+			var out Slice
+			if cur, ok := (*addr).(Slice); ok && cur != nil && cap(cur) >= len(d.Elems) && len(d.Elems) > 0 {
+				// encoding/json truncates the existing slice and appends: the backing
+				// array is reused (elements are decoded in place, like real json)
+				out = cur[:len(d.Elems)]
+			} else {
+				out = make(Slice, len(d.Elems))
+				for i := range out {
+					out[i] = zero(u.Elem())
+				}
 			}
 			for i, e := range d.Elems {
+				if _, isPtr := under(u.Elem()).(*types.Pointer); !isPtr {
+					if _, isMap := under(u.Elem()).(*types.Map); !isMap {
+						out[i] = zero(u.Elem())
+					}
+				}
 				j.value(e, u.Elem(), &out[i])
 			}
 			store(addr, out)
